@@ -73,6 +73,27 @@ def _run(ctx, scen, tag):
     core.judge(ctx, rej)
 
 
+def send_sig(prop):
+    def f(rj):
+        sc = rj["trace"][0]["sc"]
+        ev = rj["event"]
+        return "%s|sendside|%s/%s|sizes=%s|cut=%s|%s|at=%s:%s" % (
+            prop, sc["proto"], sc["kind"], ".".join(map(str, sc["sizes"])), sc["cut"], sc["fault"],
+            ev.get("ev"), ev.get("res", ev.get("code", "")))
+    return f
+
+
+def sendside(ctx, faults):
+    """The sending half under a transport that consumes exactly `cut` bytes and then fails / loses its context:
+    every byte offset of small request streams (spec/SendSide.tla)."""
+    core.design_check(ctx, "MC_SendSide", "MC_SendSide.cfg")
+    scen = [s for s in core.generate(ctx, "MC_SendSide", "Gen_SendSide.cfg", tag="gensend")["scenarios"]
+            if s["fault"] in faults]
+    tf = core.run_runner(ctx, "sendside", scen, tag="sendside")
+    acc, rej = core.validate(ctx, "TraceSendSide", tf, tag="sendside", sigfn=send_sig(ctx.prop))
+    core.judge(ctx, rej)
+
+
 def run_C03(ctx):
     core.design_check(ctx, "MC_Frames", "MC_Frames.cfg")
     quick = ctx.tier == "quick"
@@ -128,7 +149,10 @@ def run_C04(ctx):
             scen.append(s)
             scen += unary_variants(s)
     _run(ctx, scen, "c04")
-    return core.finish(ctx, rule=RULE, exhaustive=True, assumptions=[
+    # write side: the transport fails after consuming k bytes of the request, for every k
+    sendside(ctx, ("err",))
+    return core.finish(ctx, rule=RULE + "; write side: spec/SendSide.tla, the transport consumes exactly k bytes of "
+                       "the request body and fails, for every k and RPC kind", exhaustive=True, assumptions=[
         "cut offsets are exhaustive over the abstract frame sizes; compressed and terminator frames are "
         "scaled to their concrete size"])
 
